@@ -487,3 +487,48 @@ func UvarintLen(x uint64) int {
 	}
 	return i + 1
 }
+
+// ---- fragments ("F#prefix"): functions that are outside the subset as a whole
+
+type node struct{ next *node }
+
+func (r *Ring) RangePrefix(start, end int) []uint32 {
+	n := len(r.keys)
+	if start < 0 {
+		start += n
+	}
+	if end < 0 {
+		end += n
+	}
+	if start < 0 {
+		start = 0
+	}
+	if start > end || start >= n {
+		return nil
+	}
+	if end >= n {
+		end = n - 1
+	}
+	size := end - start + 1
+	out := make([]uint32, 0, size)
+	for i := start; i <= end; i++ {
+		out = append(out, r.keys[i])
+	}
+	return out
+}
+
+func WalkPrefix(b []byte, k int) *node {
+	first := b[0]
+	total := 0
+	for _, v := range b {
+		total += int(v)
+	}
+	if int(first) > k {
+		panic("too big")
+	}
+	var n *node
+	for i := 0; i < total; i++ {
+		n = &node{next: n}
+	}
+	return n
+}
